@@ -79,7 +79,7 @@ CLAIMED = {
   note="NOT decided: what matplotlib does with the call, the image format and pixel size. pyplot/Axes/Figure are recording stubs in both the symbolic run and the replay.",
   ref="3 C17"),
  "C19": dict(
-  text="Partial. Exploration through the engine of verif.driver.run -> real Data -> real metric -> Standard._get_x_y -> csv for every valid metric class (70) + 6 diagrams x 4 (thorough: all 19) -x dimensions x 3-6 bin-type/aggregator variants x dataset classes chosen by symbolic flags (a location and/or a time entirely missing, constant forecasts, zero observations, perfect forecast), of the text and csv writers x obs/fcst/threshold/leadtime axes x bin types x -r, and of every diagram / output type up to a pyplot recording stub: every run returns or exits through verif.util.error with non-zero status; any other exception is replayed on the unmodified code and reported.",
+  text="Partial. Exploration through the engine of verif.driver.run -> real Data -> real metric -> Standard._get_x_y -> csv for every valid metric class (70) + 6 diagrams x 4 (thorough: all 19) -x dimensions x 3-6 bin-type/aggregator variants x dataset classes chosen by symbolic flags (a location and/or a time entirely missing, constant forecasts, zero observations, perfect forecast), of the text and csv writers x obs/fcst/threshold/leadtime axes x bin types x -r, of every diagram / output type up to a pyplot recording stub, of all 28 diagrams x 8 bin types x 1/2/4 thresholds and of all 28 diagrams x 19 -x dimensions x (default, -q, -agg median, -simple) on the ordinary dataset: every run returns or exits through verif.util.error with non-zero status; any other exception is replayed on the unmodified code and reported.",
   note="This is the weakest claim: after the flags are decided the cells are concrete, so the solver only enumerates the feasible flag/option combinations (bounded configuration exploration, not value-level reasoning). NOT decided: output types that render (plot, map, rank, maprank, impact, mapimpact) and the diagrams' drawing code.",
   ref="3 C19"),
  "C20": dict(
